@@ -42,9 +42,9 @@ Proof.
 Qed.
 
 (* adjacency through the covered edge list *)
-Definition ckey (u v : N) (c : N * N * (Z * option Z)) : bool :=
+Definition ckey (u v : N) (c : N * N * ecv) : bool :=
   N.eqb (fst (fst c)) (N.min u v) && N.eqb (snd (fst c)) (N.max u v).
-Definition clook (u v : N) (l : list (N * N * (Z * option Z))) : option (Z * option Z) :=
+Definition clook (u v : N) (l : list (N * N * ecv)) : option ecv :=
   option_map snd (find (ckey u v) l).
 Lemma ckey_cove u v a b x :
   ckey u v (cove (a, b, x)) = (N.eqb a u && N.eqb b v) || (N.eqb a v && N.eqb b u).
@@ -140,9 +140,14 @@ Proof.
   unfold degree. f_equal. pose proof (Permutation_length (inc_rel v)) as E. rewrite !map_length in E. exact E.
 Qed.
 
-Definition EC (x : Z * option Z) : list Z := [fst x; (match snd x with Some _ => 1 | None => 0 end)%Z; sd0 (snd x)].
+Definition EC (x : ecv) : list Z :=
+  let '(o, t, s) := x in
+  match t with
+  | None => [o; (match s with Some _ => 1 | None => 0 end)%Z; sd0 s]
+  | Some b => [Z.min o b; Z.max o b; (match s with Some _ => 1 | None => 0 end)%Z; sd0 s]
+  end.
 Lemma ecode_cov a : ecode a = EC (ecov a).
-Proof. destruct a as [o [s|]]; reflexivity. Qed.
+Proof. destruct a as [o [s|] [t|]]; reflexivity. Qed.
 
 Lemma cnt_perm c ns ns' : Permutation ns ns' -> IRInst.cnt c ns = IRInst.cnt c ns'.
 Proof. intros H. unfold IRInst.cnt. f_equal. apply Permutation_length. apply Permutation_filter. exact H. Qed.
@@ -154,7 +159,7 @@ Proof.
 Qed.
 Lemma ecodes_rel v : Permutation (map (fun p => ecode (snd p)) (inc h (pi v))) (map (fun p => ecode (snd p)) (inc g v)).
 Proof.
-  pose proof (Permutation_map (fun p : N * (Z * option Z) => EC (snd p)) (inc_rel v)) as H. rewrite !map_map in H. cbn [snd ce] in H.
+  pose proof (Permutation_map (fun p : N * ecv => EC (snd p)) (inc_rel v)) as H. rewrite !map_map in H. cbn [snd ce] in H.
   rewrite (map_ext (fun p => ecode (snd p)) (fun p => EC (ecov (snd p)))) by (intros; apply ecode_cov).
   exact H.
 Qed.
